@@ -657,7 +657,7 @@ func UpdateIndexFromStdin() (*subprocess.Cmd, error) {
 func RecentBranches(since time.Time, includeRemoteBranches bool, onlyRemote string) ([]*Ref, error) {
 	cmd, err := gitNoLFS("for-each-ref",
 		`--sort=-committerdate`,
-		`--format=%(refname) %(objectname) %(committerdate:iso)`,
+		`--format=%(refname) %(objectname) %(committerdate:iso)%(*committerdate:iso)`,
 		"refs")
 	if err != nil {
 		return nil, errors.New(tr.Tr.Get("failed to find `git for-each-ref`: %v", err))
@@ -700,8 +700,9 @@ func RecentBranches(since time.Time, includeRemoteBranches bool, onlyRemote stri
 				return ret, err
 			}
 			if commitDate.Before(since) {
-				// the end
-				break
+				// Annotated tags sort by their (absent) own commit date,
+				// so older refs may be followed by recent ones.
+				continue
 			}
 			tracerx.Printf("RECENT: %v (%v)", ref, commitDate)
 			ret = append(ret, &Ref{ref, reftype, sha})
